@@ -132,8 +132,21 @@ func genSeq(r *vh.RNG, maxOps int, tamperBudget *int) []string {
 		out = append(out, fmt.Sprintf("LIM %d", r.Intn(4)))
 	}
 	nops := r.Range(maxOps/4, maxOps)
+	copyAt := -1 // a second live trie from here on (25 % of the sequences), taken mid-history
+	if r.Chance(25) {
+		copyAt = r.Range(2, nops/2+2)
+	}
 	w := []int{40, 14, 10, 5, 3, 2, 6, 1, 5, 2, 1, 2, 2, 3, 2, 1, 2}
 	for i := 0; i < nops; i++ {
+		if i == copyAt {
+			out = append(out, "COPY")
+		}
+		mark := -1
+		if copyAt >= 0 && i >= copyAt && r.Bool() {
+			out = append(out, "") // placeholder replaced below by the @1-prefixed op
+			mark = len(out) - 1
+		}
+		before := len(out)
 		switch r.Weighted(w) {
 		case 0:
 			out = append(out, fmt.Sprintf("U %s %s", hx(pick()), hx(genValue(r))))
@@ -184,6 +197,21 @@ func genSeq(r *vh.RNG, maxOps int, tamperBudget *int) []string {
 			out = append(out, fmt.Sprintf("LIM %d", r.Intn(4)))
 		case 16:
 			out = append(out, "CHK")
+		}
+		if mark >= 0 {
+			// address the op just generated (if any) to the second trie
+			if len(out) > before {
+				out[mark] = "@1 " + out[len(out)-1]
+				out = out[:len(out)-1]
+			} else {
+				out = out[:mark]
+			}
+		}
+	}
+	if copyAt >= 0 {
+		out = append(out, "@1 H", "@1 I")
+		for i := 0; i < 2; i++ {
+			out = append(out, fmt.Sprintf("@1 P %s 0", hx(pick())))
 		}
 	}
 	out = append(out, "H", "I", "CHK")
